@@ -149,6 +149,9 @@ void HttpServer::serveFile(HttpRequest& request, HttpResponse& response)
 	{
 		String path = request.path();
 
+		if (!path.startsWith('/')) // a target such as "x/s.txt" must not be glued to the root's name: root + "x/s.txt" is a sibling of the root
+			path = '/' + path;
+
 		if (path.endsWith("/"))
 			path += "index.html";
 
